@@ -319,6 +319,72 @@ Definition bstart (h : N) : bstate := {| b_val := h; b_released := false; b_view
 Definition engine_events (l : list bstep) : list bstep :=
   filter (fun e => match e with BWrite _ => false | _ => true end) l.
 
+(* ---------- crashes: what a killed backup / transfer / restore leaves behind ----------
+   rockredis.go MarkCheckpointIncomplete / MarkCheckpointComplete / isCheckpointIncomplete,
+   isBackupOKInPath, backupLoop; node/state_machine.go prepareSnapshotForStore and the
+   TransferRemoteSnap branch; rockredis.go markRestoreBegin / interruptedRestore, OpenRockDB.
+   A checkpoint directory under its final name is absent, partly written or complete; next to it
+   the marker file incomplete_<term>_<index> may exist. *)
+
+Inductive dstate := DAbsent | DPartial | DComplete (v : N).
+Record cslot := { cs_dir : dstate; cs_marked : bool }.
+
+Inductive wstep :=
+| WRemove                 (* os.RemoveAll of the directory (backupLoop, RunFileSync local branch) *)
+| WMark                   (* MarkCheckpointIncomplete *)
+| WPartial                (* some files of the checkpoint have been written / linked / transferred *)
+| WFinish (v : N)         (* the last file is there: the directory holds the checkpoint of content v *)
+| WUnmark.                (* MarkCheckpointComplete *)
+
+Definition wstep_run (s : cslot) (e : wstep) : cslot :=
+  match e with
+  | WRemove => {| cs_dir := DAbsent; cs_marked := cs_marked s |}
+  | WMark => {| cs_dir := cs_dir s; cs_marked := true |}
+  | WPartial => {| cs_dir := DPartial; cs_marked := cs_marked s |}
+  | WFinish v => {| cs_dir := DComplete v; cs_marked := cs_marked s |}
+  | WUnmark => {| cs_dir := cs_dir s; cs_marked := false |}
+  end.
+Definition wrun (s : cslot) (l : list wstep) : cslot := fold_left wstep_run l s.
+
+(* backupLoop for one request; kvStoreSM.PrepareSnapshot's transfer (reuse links + RunFileSync) *)
+Definition backup_steps (v : N) : list wstep := [WRemove; WMark; WPartial; WFinish v; WUnmark].
+Definition fetch_steps (v : N) : list wstep := [WMark; WPartial; WFinish v; WUnmark].
+(* the same without the marker, as the code was before /repo b3a9b47 *)
+Definition backup_steps_unmarked (v : N) : list wstep := [WRemove; WPartial; WFinish v].
+Definition fetch_steps_unmarked (v : N) : list wstep := [WPartial; WFinish v].
+
+(* isBackupOKInPath: the directory exists, is not marked incomplete, and the engine opens it
+   read-only. opens_partial: whether the engine happens to open a half written directory (pebble and
+   rocksdb do when only WAL data is missing or cut short, the mem engine always does). *)
+Definition backup_ok (opens_partial : bool) (s : cslot) : bool :=
+  match cs_dir s with
+  | DAbsent => false
+  | DPartial => negb (cs_marked s) && opens_partial
+  | DComplete _ => negb (cs_marked s)
+  end.
+
+(* what Restore brings back when the backup is accepted: the checkpoint's content, or whatever a
+   half written directory decodes to (garbage) *)
+Definition restored_content (garbage : N) (s : cslot) : N :=
+  match cs_dir s with DComplete v => v | _ => garbage end.
+
+(* the data directory during restoreFromPath, with the marker file "restoring" *)
+Inductive ddata := DOld | DMixed | DNew.
+Record rslot := { rs_data : ddata; rs_marked : bool }.
+Inductive rstep := RMark | RMix | RDone | RUnmark.
+Definition rstep_run (s : rslot) (e : rstep) : rslot :=
+  match e with
+  | RMark => {| rs_data := rs_data s; rs_marked := true |}
+  | RMix => {| rs_data := DMixed; rs_marked := rs_marked s |}      (* a file removed or copied *)
+  | RDone => {| rs_data := DNew; rs_marked := rs_marked s |}       (* the last file copied *)
+  | RUnmark => {| rs_data := rs_data s; rs_marked := false |}
+  end.
+Definition rrun (s : rslot) (l : list rstep) : rslot := fold_left rstep_run l s.
+Definition restore_steps : list rstep := [RMark; RMix; RDone; RUnmark].
+Definition restore_steps_unmarked : list rstep := [RMix; RDone].
+(* OpenRockDB: an interrupted restore is finished first (restore_plan from whatever is there) *)
+Definition open_after_crash (s : rslot) : ddata := if rs_marked s then DNew else rs_data s.
+
 (* ---------- the value level ---------- *)
 
 Record ckinfo := { ck_val : N; ck_dg : N }.
